@@ -182,7 +182,15 @@ def _lex(text):
             s = text[i:j]
             if s.count(".") > 1 or s == ".":
                 raise Reject("number")
-            toks.append(("num", Fraction(s if not s.endswith(".") else s + "0")))
+            if "." in s:
+                # a literal with a decimal point denotes the DOUBLE nearest to it ("anything float() parses"):
+                # beyond 15-17 significant digits that is not the decimal itself
+                q = core.to_frac(float(s if not s.endswith(".") else s + "0"))
+                if q is None:
+                    raise OverflowError("literal overflows to inf: outside the oracle")
+                toks.append(("num", q))
+            else:
+                toks.append(("num", Fraction(s)))
             i = j
         elif c.isascii() and c.isalpha():
             j = i
